@@ -17,6 +17,12 @@ structure Meta where
   mtime : Int := 0
   deriving Repr, DecidableEq
 
+/-- `tar_header(metadata)` stores `metadata.mtime() as u64`: negative (pre-1970) times wrap. -/
+def mtimeToHeader (t : Int) : Nat := (t % 2 ^ 64).toNat
+
+/-- `get_file_metadata`: `header.mtime()? as i64` — the stored value reinterpreted as two's complement. -/
+def headerMtime (u : Nat) : Int := if u < 2 ^ 63 then (u : Int) else (u : Int) - 2 ^ 64
+
 inductive Entry (β : Type) where
   | dir (path : String) (m : Meta)
   | file (path : String) (m : Meta) (data : List β)
